@@ -272,3 +272,59 @@ Theorem refdef_title_dropped_witness :
   = Ok ([x22; x74; x22; x20; x6a; x75; x6e; x6b; x0a], [([x61], ([x2f; x75], []))]).
 Proof. exact refdef_title_dropped_lemma. Qed.
 Print Assumptions refdef_title_dropped_witness.
+
+(* ==================================================================================================================
+   C01, inline phase, second wave (Proofs/InlinesTotal2*.v).  The inventory of every Panic site of Model/Inlines.v
+   with the invariant that excludes it or its witness is the header of Proofs/InlinesTotal2.v. *)
+From V Require Spec.EscapeSpec.
+From V Require Import Proofs.InlinesTotal2.
+
+(* ---- 1e. the full statement above needs more premises ----
+   inlines_total_full_statement is FALSE of the model as stated: its premises allow contents the block phase never
+   hands over.  Four model-level witnesses (none is a defect of comrak: not producible through parse_document):
+   a blank first line (TAB LF x: parse_inline:endpos-1), a bare CR with one line offset (the premise counts LF
+   only: line_offsets[adjusted_line]), a reference budget above the maximum (RefMap::lookup subtraction), and
+   INVALID UTF-8 (< ? C3 http://a.b with autolink: the processing-instruction arm eats the h of the scheme, the
+   rewind of the autolink meets the HtmlInline: `expected text node before autolink colon`).
+   inlines_total_statement is the statement with the premises these witnesses show to be necessary. *)
+Theorem inlines_total_full_statement_refuted : ~ inlines_total_full_statement.
+Proof. exact inlines_total_old_statement_refuted. Qed.
+Print Assumptions inlines_total_full_statement_refuted.
+
+Definition inlines_total_statement : Prop := InlinesTotal2.inlines_total_statement.
+
+Theorem inlines_total_witness_blank_first_line :
+  parse_inlines true io_default oracle_ascii r1_input [0%N; 0%N] 1%N [] 100000%N 0%N
+  = Panic "inlines.rs:parse_inline:endpos-1".
+Proof. exact r1_value. Qed.
+Print Assumptions inlines_total_witness_blank_first_line.
+
+Theorem inlines_total_witness_bare_cr :
+  parse_inlines true io_default oracle_ascii r2_input [0%N] 1%N [] 100000%N 0%N
+  = Panic "inlines.rs:parse_inline:line_offsets[adjusted_line]".
+Proof. exact r2_value. Qed.
+Print Assumptions inlines_total_witness_bare_cr.
+
+Theorem inlines_total_witness_ref_budget :
+  parse_inlines true io_default oracle_ascii r3_input [0%N] 1%N [([x61], ([x2f; x75], []))] 0%N 1%N
+  = Panic "inlines.rs:RefMap::lookup:max_ref_size-ref_size".
+Proof. exact r3_value. Qed.
+Print Assumptions inlines_total_witness_ref_budget.
+
+(* valid UTF-8 of the content is needed *)
+Theorem inlines_total_witness_invalid_utf8 :
+  parse_inlines true io_autolink_only oracle_ascii r4_input [0%N] 1%N [] 100000%N 0%N
+  = Panic "inlines.rs:handle_autolink_with:expected text node before autolink colon"
+  /\ Spec.EscapeSpec.utf8_valid r4_input = false.
+Proof. exact r4_value. Qed.
+Print Assumptions inlines_total_witness_invalid_utf8.
+
+Theorem inlines_total_premises_each_needed :
+  (has_nul r1_input = false /\ Strings.rtrim_slice r1_input = r1_input /\ Spec.EscapeSpec.utf8_valid r1_input = true
+   /\ line_endings r1_input < 2 /\ first_line_not_blank r1_input = false)
+  /\ (has_nul r2_input = false /\ Strings.rtrim_slice r2_input = r2_input /\ Spec.EscapeSpec.utf8_valid r2_input = true
+      /\ first_line_not_blank r2_input = true /\ List.length (filter (beqb x0a) r2_input) < 1 /\ line_endings r2_input = 1)
+  /\ (has_nul r4_input = false /\ Strings.rtrim_slice r4_input = r4_input /\ first_line_not_blank r4_input = true
+      /\ line_endings r4_input < 1 /\ Spec.EscapeSpec.utf8_valid r4_input = false).
+Proof. exact inlines_total_premises_needed. Qed.
+Print Assumptions inlines_total_premises_each_needed.
